@@ -50,7 +50,11 @@ pub fn worker(tier: &str, seed: u64, from: u64, to: u64, extra: &[String]) -> Ag
     let selftest = extra.iter().any(|e| e == "digests");
     let mut agg = Agg::default();
     let tier = tier_of(tier);
+    let progress_file = std::env::var("VERIF_WORKER_OUT").unwrap_or_default();
     for i in from..to {
+        if !progress_file.is_empty() {
+            runner::note_progress(&progress_file, i);
+        }
         let s = runner::run_seed(seed, i);
         let (h, o) = run_one(s, tier);
         agg.runs += 1;
